@@ -132,7 +132,7 @@ pub fn emit_stats_case<T: Sc>(out: &mut Out, fc: &FitCase<T>) {
         }
     };
     out.line(&format!("step build {}", slice_str(&c.init)));
-    emit_tables(out, &c.recipe, &c.init);
+    emit_tables(out, &c.recipe, &c.init, &c.w);
     emit_outputs(out, "impl", prob.as_ref());
     let lm = fc.cfg.build::<T>();
     let threads = fc.threads;
@@ -210,7 +210,7 @@ pub fn emit_stats_case<T: Sc>(out: &mut Out, fc: &FitCase<T>) {
             ));
             let alpha: Vec<T> = f.problem.params().iter().copied().collect();
             out.line(&format!("step final {}", slice_str(&alpha)));
-            emit_tables(out, &c.recipe, &alpha);
+            emit_tables(out, &c.recipe, &alpha, &c.w);
             emit_outputs(out, "impl", f.problem.as_ref());
             if let Some(st) = so.stats {
                 out.line(&format!("st cov {}", mat_str(&st.covariance)));
